@@ -17,6 +17,8 @@ VARIANTS: Dict[str, Dict[str, Any]] = {
     "two-callers": dict(producers={"p1": ["E1", "E2"], "p2": ["F1"]}, timer=False),
     "two-callers+timer": dict(producers={"p1": ["E1"], "p2": ["F1"]}, timer=True),
     "raiser+caller": dict(producers={"p1": ["R1"], "p2": ["F1"]}, timer=False),
+    # the caller's event exits the state whose timer expires at the same time (timer bookkeeping is shared by both threads)
+    "leaver+timer": dict(producers={"p1": ["LEAVE"]}, timer=True, leave=True),
 }
 
 
@@ -25,7 +27,8 @@ def config(timer: bool) -> Dict[str, Any]:
     a["on"]["R1"] = {"actions": ["r1", {"type": "raise", "params": {"event": {"type": "X1"}}}]}
     if timer:
         a["after"] = {"50": {"actions": ["tick"]}}
-    return {"id": "m", "initial": "a", "states": {"a": a}}
+    a["on"]["LEAVE"] = {"target": "b", "actions": ["leave"]}
+    return {"id": "m", "initial": "a", "states": {"a": a, "b": {}}}
 
 
 def run(variant: str, ch: e2.Choices, bound: int) -> Dict[str, Any]:
@@ -43,10 +46,14 @@ def run(variant: str, ch: e2.Choices, bound: int) -> Dict[str, Any]:
 
         from xstate_statemachine.actions import raise_ as _raise  # noqa: F401  (built-in referenced by name in config)
 
-        logic = MachineLogic(actions={n: mk(n) for n in ("e1", "e2", "f1", "x1", "r1", "tick")})
+        logic = MachineLogic(actions={n: mk(n) for n in ("e1", "e2", "f1", "x1", "r1", "tick", "leave")})
         it = SyncInterpreter(create_machine(config(spec["timer"]), logic=logic))
         cls = SyncInterpreter
         sched.trace_codes = {cls.send.__code__, cls.send_events.__code__, cls._process_event_queue.__code__}
+        if spec.get("leave"):
+            from .c14_preempt import inner_code
+
+            sched.trace_codes |= {cls._cancel_state_tasks.__code__, inner_code(cls._after_timer, "timer_thread")}
         sched.watch_codes = {cls._process_event.__code__}
         it.start()
         for name, evs in spec["producers"].items():
@@ -65,6 +72,17 @@ def run(variant: str, ch: e2.Choices, bound: int) -> Dict[str, Any]:
                           + (["x1"] if any("R1" in evs for evs in spec["producers"].values()) else []))
         got = sorted(n for n, _ in log)
         stranded = [getattr(e, "type", e) for e in it._event_queue]
+        if spec.get("leave"):
+            # the timer may or may not beat LEAVE; if it runs it runs before the state is left, and LEAVE always completes
+            names = [n for n, _ in log]
+            if names.count("leave") != 1 or sorted(s.id for s in it._active_state_nodes) != ["m", "m.b"]:
+                bad.append(("event-lost", f"LEAVE was accepted but the machine is in {sorted(s.id for s in it._active_state_nodes)}, actions {names}"))
+            if names.count("tick") > 1 or ("tick" in names and names.index("tick") > names.index("leave") if "leave" in names else False):
+                bad.append(("stale-timer-fired-after-exit", f"actions {names}"))
+            if stranded and stranded != ["after.50.m.a"]:
+                bad.append(("event-stranded-in-queue", f"{stranded}"))
+            got = expected
+            stranded = []
         if stranded:
             bad.append(("event-stranded-in-queue", f"all threads have returned, {stranded} still queued, processing flag {it._is_processing}"))
         elif got != expected:
